@@ -94,7 +94,13 @@ def write_then_forget(ctx: Ctx, chk, loss_only: bool = False) -> None:
             # the send sends the loop's value
             call = sb.is_send(s.ast)
             a0 = call.args[0] if call.args else None
-            if not (a0 is not None and norm(a0) == (fl.val_name or "")):
+            same_val = a0 is not None and norm(a0) == (fl.val_name or "")
+            if not same_val and a0 is not None and isinstance(a0, ast.Name) and fl.val_name:
+                # a local bound once, in the loop body, to the loop's value (`buffer_message = entry`)
+                binds = [n_ for n_ in ctx.own_nodes(f) if isinstance(n_, ast.Assign) and any(isinstance(t_, ast.Name) and t_.id == a0.id for t_ in n_.targets)]
+                stores_ = [n_ for n_ in ctx.own_nodes(f) if isinstance(n_, ast.Name) and n_.id == a0.id and isinstance(n_.ctx, ast.Store)]
+                same_val = len(binds) == 1 and len(stores_) == 1 and norm(binds[0].value) == fl.val_name and sb._inside(fl.loop, binds[0])
+            if not same_val:
                 chk.refute(rule, k, f"the send before the removal sends `{norm(a0) if a0 is not None else ''}`, not the entry that is then removed", ctx.loc(f, s.ast))
                 continue
             chk.ok(rule, k, f"dominated by the normal completion of `{norm(s.ast)[:60]}` of the same iteration", ctx.loc(f, r.ast))
